@@ -151,6 +151,12 @@ def m_replace(ip, s, old, new, count=-1):
 
 
 def m_join(ip, sep, items):
+    if isinstance(items, sym.SSeq):
+        if isinstance(sep, Sym):
+            raise Unsupported("symbolic separator")
+        if _isb(sep) != items.elem_bytes:
+            raise TypeError("sequence item 0: expected %s instance" % ("bytes" if _isb(sep) else "str"))
+        return items.joined(sep)
     items = ip.iterate(items)
     isb = _isb(sep)
     for it in items:
@@ -173,12 +179,24 @@ def m_count(ip, s, sub, *rest):
     raise Unsupported("count on symbolic string")
 
 
+F_split_set = z3.Function("py_split_ws_set", z3.StringSort(), z3.ArraySort(z3.StringSort(), z3.BoolSort()))
+
+
 def m_split(ip, s, *a, **k):
-    raise Unsupported("split on symbolic string")
+    """s.split() (whitespace) of a symbolic string, usable only through membership: the set of its fields,
+    an uninterpreted function of s."""
+    if a and a[0] is not None and is_strlike(a[0]) and _isb(a[0]) != _isb(s):
+        raise TypeError("a bytes-like object is required, not 'str'" if _isb(s) else "must be str or None, not bytes")
+    if a or k or not isinstance(s, SStr):
+        raise Unsupported("split(sep) on symbolic string")
+    arr = F_split_set(s.t)
+    return SSet(arr, arr, None)
 
 
 def m_splitlines(ip, s, *a, **k):
-    raise Unsupported("splitlines on symbolic string")
+    if a or k:
+        raise Unsupported("splitlines(keepends)")
+    return sym.s_splitlines(s)
 
 
 def m_capitalize(ip, s):
